@@ -10,8 +10,8 @@ namespace Logrange.Props.C20
 open Logrange.Date Logrange.Generated
 
 def gterms : List Term := C20.terms
-def colFmts : List CFormat := C20.collectorFormats.map (compile gterms)
-def lqlFmts : List CFormat := C20.lqlFormats.map (compile gterms)
+def colFmts : List CFormat := C20.collectorFormats.map (compile gterms C20.regexpLeftGuard)
+def lqlFmts : List CFormat := C20.lqlFormats.map (compile gterms C20.regexpLeftGuard)
 def gadj : Adjust := { year := C20.formatParseAdjustsYear, date := C20.formatParseAdjustsDate }
 def gcfg : LqlCfg :=
   { lower := C20.lqlLowerCases, trim := C20.lqlTrimsBlanks, fmtLower := C20.lqlLowerCases && C20.lqlFormatsSeeLowerCased, adj := gadj }
@@ -43,7 +43,7 @@ unanchored in the format's own text, returns the whole text — for every valid 
 theorem own_regexp_matches (cf : CFormat) (hcf : cf ∈ allFmts) (i : XInst) (hi : ValidX i) :
     ∃ txt r, renderLayout cf.layout i = some txt ∧ cf.rx = some r ∧ find r txt = some txt := by
   obtain ⟨txt, _, ht, _, _⟩ := format_parse_fields_all cf hcf i hi
-  obtain ⟨r, hr, hf⟩ := own_regexp_whole (List.all_eq_true.mp all_formats_own_ok cf hcf) hi ht
+  obtain ⟨r, hr, hf, _⟩ := own_regexp_whole (List.all_eq_true.mp all_formats_own_ok cf hcf) hi ht
   exact ⟨txt, r, ht, hr, hf⟩
 
 /-- so a format alone (`date.NewParser(fmt)`) accepts its own text and gives the fields it carries -/
@@ -51,28 +51,43 @@ theorem format_alone_correct (cf : CFormat) (hcf : cf ∈ allFmts) (i : XInst) (
     ∃ txt c, renderLayout cf.layout i = some txt ∧ projectX cf.layout i = .ok c ∧
       formatParse adj cf now txt = adjustRes adj cf now c := by
   obtain ⟨txt, c, ht, hp, hc⟩ := format_parse_fields_all cf hcf i hi
-  obtain ⟨r, hr, hf⟩ := own_regexp_whole (List.all_eq_true.mp all_formats_own_ok cf hcf) hi ht
+  obtain ⟨r, hr, _, hf⟩ := own_regexp_whole (List.all_eq_true.mp all_formats_own_ok cf hcf) hi ht
   exact ⟨txt, c, ht, hc, formatParse_of_find hr hf hp⟩
 
 /-! ## (3): which formats are claimed by themselves — a verified checker instead of a sweep -/
 
-/-- collector formats whose texts no earlier format's expression can match anywhere (shape abstraction, `findS`) -/
+/-- collector formats whose texts no earlier format's expression can match anywhere (shape abstraction, `findSG`). The list
+depends on the tree: with the repair F19s (left guard in `NewParser` + AM/PM formats before the 24-hour formats they
+extend: `regexpLeftGuard = true`) 43 of 59, before it 37 of 59. -/
 def cleanCollector : List Nat :=
-  [0, 1, 2, 3, 4, 5, 6, 8, 9, 10, 11, 12, 17, 19, 22, 23, 25, 35, 36, 37, 38, 39, 40, 41, 42, 43, 44, 45, 46, 47, 48, 49,
-   50, 51, 52, 53, 54]
+  if C20.regexpLeftGuard then
+    [0, 1, 2, 3, 4, 5, 6, 8, 9, 10, 11, 12, 13, 17, 19, 21, 22, 23, 25, 27, 28, 31, 33, 35, 36, 37, 38, 39, 40, 41, 42, 43,
+     44, 45, 46, 47, 48, 49, 50, 51, 52, 53, 54]
+  else
+    [0, 1, 2, 3, 4, 5, 6, 8, 9, 10, 11, 12, 17, 19, 22, 23, 25, 35, 36, 37, 38, 39, 40, 41, 42, 43, 44, 45, 46, 47, 48, 49,
+     50, 51, 52, 53, 54]
 
-/-- the other collector formats: some earlier expression may match inside their text. 11 of them are the recorded
-shadowing classes (16 20 21 27 28 29 30 31 32 33 34); for the other 11 the earlier format either reads the same fields
-(e.g. 13 `D/MM/YYYY HH:mm:ss` after 12 `DD/MM/YYYY HH:mm:ss` for a two-digit day) or its layout rejects the match
-(`MM.DD.YYYY` before the year-less formats): those stay decided by the sweep. -/
-def unclearCollector : List Nat := [7, 13, 14, 15, 16, 18, 20, 21, 24, 26, 27, 28, 29, 30, 31, 32, 33, 34, 55, 56, 57, 58]
+/-- the other collector formats: some earlier expression may match inside their text. On the repaired tree these are only
+(a) *twins* — the earlier format differs in digit widths and reads the same fields from the text (7 after 6, 14 15 16 after
+13, 18 after 17, 20 after 19, 24 after 23, 26 after 25, 29 30 after 28, 32 after 31, 34 after 33, 56 after 55, 58 after
+57) and (b) texts in which the unescaped `.` of `MM.DD.YYYY` / `MM.DD.YY` (53, 54) matches a `:` (55 56 57 58), whose layout
+then rejects the match: decided by the sweep. Before the repair the 11 formats of the 34 recorded shadowing classes
+(16 20 21 27 … 34) are here too. -/
+def unclearCollector : List Nat :=
+  if C20.regexpLeftGuard then [7, 14, 15, 16, 18, 20, 24, 26, 29, 30, 32, 34, 55, 56, 57, 58]
+  else [7, 13, 14, 15, 16, 18, 20, 21, 24, 26, 27, 28, 29, 30, 31, 32, 33, 34, 55, 56, 57, 58]
 
 def cleanLql : List Nat :=
-  [0, 1, 2, 3, 4, 5, 6, 8, 9, 10, 11, 12, 17, 19, 22, 23, 25, 35, 36, 37, 38, 39, 40, 41, 42, 43, 44, 45, 46, 47, 48, 49,
-   50, 51, 52, 53, 54, 61, 64, 67]
+  if C20.regexpLeftGuard then
+    [0, 1, 2, 3, 4, 5, 6, 8, 9, 10, 11, 12, 13, 17, 19, 21, 22, 23, 25, 27, 28, 31, 33, 35, 36, 37, 38, 39, 40, 41, 42, 43,
+     44, 45, 46, 47, 48, 49, 50, 51, 52, 53, 54, 61, 64, 67]
+  else
+    [0, 1, 2, 3, 4, 5, 6, 8, 9, 10, 11, 12, 17, 19, 22, 23, 25, 35, 36, 37, 38, 39, 40, 41, 42, 43, 44, 45, 46, 47, 48, 49,
+     50, 51, 52, 53, 54, 61, 64, 67]
 
 def unclearLql : List Nat :=
-  [7, 13, 14, 15, 16, 18, 20, 21, 24, 26, 27, 28, 29, 30, 31, 32, 33, 34, 55, 56, 57, 58, 59, 60, 62, 63, 65, 66]
+  if C20.regexpLeftGuard then [7, 14, 15, 16, 18, 20, 24, 26, 29, 30, 32, 34, 55, 56, 57, 58, 59, 60, 62, 63, 65, 66]
+  else [7, 13, 14, 15, 16, 18, 20, 21, 24, 26, 27, 28, 29, 30, 31, 32, 33, 34, 55, 56, 57, 58, 59, 60, 62, 63, 65, 66]
 
 theorem clean_collector_checked : cleanCollector.all (cleanIdx colFmts) = true := by decide +kernel
 theorem clean_lql_checked : cleanLql.all (cleanIdx lqlFmts) = true := by decide +kernel
@@ -86,10 +101,20 @@ theorem clean_lists_partition :
 theorem unclear_not_clean : unclearCollector.all (fun k => !cleanIdx colFmts k) = true ∧
     unclearLql.all (fun k => !cleanIdx lqlFmts k) = true := by decide +kernel
 
-/-- every recorded shadowing class (known_findings.d/C20.json: 17 collector + 17 LQL classes over these 11 formats) is
-among the unclear ones — none of the formats proved correct below is a recorded deviation -/
-theorem recorded_classes_unclear : [16, 20, 21, 27, 28, 29, 30, 31, 32, 33, 34].all
-    (fun k => unclearCollector.contains k && unclearLql.contains k) = true := by decide
+/-- before the repair every recorded shadowing class (known_findings.d/C20.json: 17 collector + 17 LQL classes over these 11
+formats) is among the unclear ones — none of the formats proved correct is a recorded deviation; with the repair there is
+no recorded class -/
+theorem recorded_classes_unclear : (C20.regexpLeftGuard || [16, 20, 21, 27, 28, 29, 30, 31, 32, 33, 34].all
+    (fun k => unclearCollector.contains k && unclearLql.contains k)) = true := by decide +kernel
+
+/-- **no shadowing among the heads of the families, on the repaired tree**: with F19s every format that used to be claimed by
+an earlier, unrelated format — `D/M/YYYY hh:mm:ss P` (now 12), `D/M/YYYY hh:mm P` (17), `YYYY/MM/DD HH:mm:ss.SSS` (27),
+`YYYY/MM/DD HH:mm:ss` (28), `YYYY/MM/DD HH:mm` (31), `YYYY/MM/DD` (33) — is in the clean list of both tables, i.e. proved
+correct for every instant by `C20_collector` / `C20_lql`; their digit-width twins are claimed by those heads with the same
+fields (tested). A table edit that re-introduces such a shadow removes the index from the checked list and breaks
+`clean_collector_checked` / this obligation. -/
+theorem no_shadowing_heads : (!C20.regexpLeftGuard || [12, 17, 27, 28, 31, 33].all
+    (fun k => cleanCollector.contains k && cleanLql.contains k)) = true := by decide +kernel
 
 /-- the clean formats all carry a year or are time-only, and their texts are safe LQL literals (no blank at either end, no
 leading `-`, a digit inside) -/
@@ -121,7 +146,7 @@ theorem cleanIdx_some {fmts : List CFormat} {k : Nat} (h : cleanIdx fmts k = tru
 
 /-! ## (4): the headline -/
 
-/-- **C20 for the collector list.** For every format index in `cleanCollector` (37 of 59) and EVERY valid instant: the
+/-- **C20 for the collector list.** For every format index in `cleanCollector` (43 of 59 with the repair F19s, 37 before) and EVERY valid instant: the
 default parser, given the text of the instant in that format alone, answers with that very format and the fields the
 format carries (UTC without a zone; today's date for a time-only format). No sweep, no sample: all instants. -/
 theorem C20_collector (k : Nat) (hk : k ∈ cleanCollector) (i : XInst) (hi : ValidX i) (now : Now) :
@@ -137,7 +162,7 @@ theorem C20_collector (k : Nat) (hk : k ∈ cleanCollector) (i : XInst) (hi : Va
   rw [adjustRes_ok hside] at hpf
   exact ⟨ck, txt, c, hck, ht, hc, hpf⟩
 
-/-- **C20 for LQL literals.** For every format index in `cleanLql` (40 of 68) and every valid instant:
+/-- **C20 for LQL literals.** For every format index in `cleanLql` (46 of 68 with the repair F19s, 40 before) and every valid instant:
 `parseLqlDateTime`, given the text of the instant in that format, answers with that format and the fields it carries. -/
 theorem C20_lql (k : Nat) (hk : k ∈ cleanLql) (i : XInst) (hi : ValidX i) (now : Now) :
     ∃ ck txt c, lqlFmts[k]? = some ck ∧ renderLayout ck.layout i = some txt ∧ projectX ck.layout i = .ok c ∧
